@@ -196,3 +196,12 @@ Proof.
     + intros Hin. apply in_app_or in Hin. destruct Hin as [?|[<-|[]]]; auto.
     + apply IHl; auto.
 Qed.
+
+Lemma nodup_app_inv {A} (a b : list A) : NoDup (a ++ b) -> NoDup a /\ NoDup b /\ forall x, In x a -> ~ In x b.
+Proof.
+  induction a; simpl; intros N.
+  - repeat split; auto. constructor.
+  - inversion N; subst. destruct (IHa H2) as [Na [Nb D]]. repeat split; auto.
+    + constructor; auto. intros Hin. apply H1. apply in_or_app; auto.
+    + intros x [<-|Hx] Hb. { apply H1. apply in_or_app; auto. } eapply D; eauto.
+Qed.
